@@ -499,7 +499,7 @@ class C23(Check):
         return res
 
     def replay(self, case):
-        with jitlab.JitLab(time_limit=600) as lab:
+        with jitlab.shared() as lab:
             ref = reference(lab, case, None)
             if ref is None:
                 return None
@@ -515,7 +515,7 @@ class C23(Check):
         case = failure.case
         best = failure
         plan = case["plan"]
-        with jitlab.JitLab(time_limit=600 if tier == "thorough" else 300) as lab:
+        with jitlab.shared() as lab:
             ref = reference(lab, case, None)
             if ref is None:
                 return failure
